@@ -544,6 +544,31 @@ def parsePInput (j : Json) : Except String Pipeline.PInput := do
   return { layout := { factors := fs, trials := (← getNat j "trials") }, crossings := cs, constraints := ks,
            postPreamble := (← getBool j "post_preamble"), commonPreamble := (← getNat j "common_preamble") }
 
+def parseDFactor (j : Json) : Except String Derive.DFactor := do
+  let tabs ← j.getObjValAs? (Array (Array Bool)) "tables"
+  return { fi := (← getNat j "fi"), deps := (← getNats j "deps"), width := (← getNat j "width"),
+           startDelta := (← getInt j "start_delta"), tables := tabs.toList }
+
+def jDep : Pipeline.Dep → Json
+  | .var x => toJson x
+  | .before r => Json.mkObj [("before", toJson r)]
+
+/-- `DerivationProcessor.generate_derivations`: the Derivation constraints, plus the `block.errors` counts -/
+def handleDerive (j : Json) : Except String Json := do
+  let fs ← (← j.getObjValAs? (Array Json) "factors").toList.mapM parseLFactor
+  let b : Layout.LBlock := { factors := fs, trials := (← getNat j "trials") }
+  let ds ← (← j.getObjValAs? (Array Json) "derived").toList.mapM parseDFactor
+  match Derive.generate b ds with
+  | .error e => return errJson e
+  | .ok cs =>
+    let out := cs.filterMap (fun c => match c with
+      | .derivation idx deps f sd => some (Json.mkObj [("idx", toJson idx), ("f", toJson f), ("start_delta", toJson sd),
+          ("deps", Json.arr (deps.map (fun l => Json.arr (l.map jDep).toArray)).toArray)])
+      | _ => none)
+    return Json.mkObj [("ok", Json.mkObj [("derivations", Json.arr out.toArray),
+      ("unmatched", Json.arr (ds.map (fun d => jNats (Derive.unmatchedLevels b d))).toArray),
+      ("uncovered", jNats (ds.map (Derive.uncovered b)))])]
+
 def handlePipeline (j : Json) : Except String Json := do
   let p ← parsePInput j
   let b := Pipeline.buildBackend p
@@ -607,6 +632,7 @@ def handle (j : Json) : Except String Json := do
   | "compile" => handleCompile j
   | "conform" => handleConform j
   | "pipeline" => handlePipeline j
+  | "derive" => handleDerive j
   | "randomgen" => handleRandomGen j
   | "decode" => handleDecode j
   | "implied" => handleImplied j
